@@ -313,6 +313,82 @@ func c16NewCtx(c fw.Case) *c16Ctx {
 		dedupeSigs: !gen16, r: gen.New(c.Seed^0x16c16, "c16pre/"+c.Kind), degrade: gen16}
 }
 
+// c16CheckHistory annotates all versions of one relation in a single call and requires, for
+// every version, the directions of that version's own member ways.
+func c16CheckHistory(res *c16Ctx, versions []*polyg.Instance, shape string) {
+	rels, ds := polyg.RelationHistory(versions)
+	var err error
+	pan := ""
+	func() {
+		defer func() {
+			if x := recover(); x != nil {
+				pan = fmt.Sprintf("%v\n%s", x, debug.Stack())
+			}
+		}()
+		err = annotate.Relations(context.Background(), rels, ds)
+	}()
+	nv := len(versions)
+	res.Eval(fmt.Sprintf("%s/H%d", shape, nv))
+	describe := func(extra map[string]any) map[string]any {
+		d := map[string]any{"relation_versions": nv}
+		for k, in := range versions {
+			var ms []any
+			for _, pi := range in.MemberOrder {
+				pc := &in.Pieces[pi]
+				var nodes []int64
+				for _, vi := range pc.V {
+					nodes = append(nodes, int64(in.Verts[vi].ID))
+				}
+				ms = append(ms, map[string]any{"way": pc.ID, "way_version": pc.Ver + 1, "role": pc.Role, "dir": int(pc.Dir), "nodes": nodes})
+			}
+			d[fmt.Sprintf("version_%d_members", k+1)] = ms
+		}
+		d["truth"] = versions[0].Describe()["truth_polygons_outer_ccw_holes_cw"]
+		for k, v := range extra {
+			d[k] = v
+		}
+		return d
+	}
+	if pan != "" || err != nil {
+		res.Violate("C16/history-annotate-error/"+shape, fmt.Sprintf("annotate.Relations failed on a %d-version history of a valid multipolygon: %v %s", nv, err, pan), describe(nil))
+		return
+	}
+	for k, in := range versions {
+		got := map[int64]orb.Orientation{}
+		for _, m := range rels[k].Members {
+			if m.Type == osm.TypeWay {
+				got[m.Ref] = m.Orientation
+			}
+		}
+		var wrong []string
+		class := ""
+		for i := range in.Pieces {
+			pc := &in.Pieces[i]
+			res.Event(1)
+			if g := got[int64(pc.ID)]; g != pc.Dir {
+				if class == "" {
+					class = pc.Role
+					if g == 0 {
+						class += "-unset"
+					}
+				}
+				wrong = append(wrong, fmt.Sprintf("way %d v%d (%s): Orientation=%d, runs %d in relation version %d", pc.ID, pc.Ver+1, pc.Role, g, pc.Dir, k+1))
+			}
+		}
+		if len(wrong) > 0 {
+			which := "last"
+			if k < nv-1 {
+				which = "earlier"
+			}
+			res.Violate("C16/history-orientation-"+class+"/"+which+"/"+shape,
+				fmt.Sprintf("relation version %d of %d: %d of %d way members marked with the wrong direction; first: %s", k+1, nv, len(wrong), len(in.Pieces), wrong[0]),
+				describe(map[string]any{"version": k + 1, "wrong_members": wrong}))
+		}
+	}
+	res.Add("history_inputs", 1)
+	res.Add("history_relation_versions", int64(nv))
+}
+
 // c16RunDegraded takes the instance out of the property's domain and only runs it: one or two
 // member ways lose the location of some of their nodes (LineStringAt / wayToLineString then
 // return fewer points than the way has nodes), and / or a member way without any node is added.
@@ -559,6 +635,19 @@ func c16Check(res *c16Ctx, in *polyg.Instance, family string) {
 		annot("A=", same)
 		annot("A-", opp)
 		annot("A~", mix)
+	}
+
+	// (1a) the relation as a history of 2-3 versions in ONE annotate call: between versions some
+	// member ways get a reversed or split new version; each version against its own directions
+	if res.degrade {
+		versions := []*polyg.Instance{in}
+		nextID := in.FreeWayID()
+		fresh := func() osm.WayID { nextID++; return nextID - 1 }
+		extraVersions := 1 + res.r.Intn(2)*res.r.Intn(2) // 2 versions (75%) or 3
+		for k := 1; k <= extraVersions; k++ {
+			versions = append(versions, versions[k-1].Evolve(res.r, k, fresh))
+		}
+		c16CheckHistory(res, versions, shape)
 	}
 
 	// (1b) outside the property (rings not fully located / a member that is no piece of a
@@ -1131,6 +1220,45 @@ func c16AnnotateShared(res *c16Ctx, set *polyg.SharedSet) {
 	}
 }
 
+// enum-history: two relation versions over fixed cuts; version 2 reverses every non-empty subset
+// of the member ways (new way versions), member order reversed.
+func c16EnumHistory(res *c16Ctx) int {
+	t := &polyg.Truth{Polys: []polyg.Poly{{
+		Outer: c16Gon(-712_000_000, -338_000_000, 300_000, 4, 0.1, false),
+		Holes: [][]polyg.Pt{c16Gon(-712_030_000, -337_980_000, 80_000, 4, 0.7, true)},
+	}}, Origin: "far"}
+	t.Normalise()
+	if err := t.Validate(4); err != nil {
+		panic("c16 enum-history truth invalid: " + err.Error())
+	}
+	nodeIDs, wayIDs := c16IDs(64)
+	count := 0
+	for mask := uint(1); mask < 16; mask++ {
+		v1 := polyg.Assemble(t, [][]polyg.RingCut{{c16MaskCut(4, 0b1001, 0b10), c16MaskCut(4, mask, 0b0101&(1<<uint(c16Popcount(mask))-1))}}, nodeIDs, wayIDs)
+		np := len(v1.Pieces)
+		for sub := uint(1); sub < 1<<uint(np); sub++ {
+			v2 := v1.WithOrder(v1.MemberOrder)
+			v2.Pieces = append([]polyg.Piece(nil), v1.Pieces...)
+			for i := range v2.Pieces {
+				pc := &v2.Pieces[i]
+				pc.V = append([]int(nil), pc.V...)
+				if sub&(1<<uint(i)) != 0 {
+					for a, b := 0, len(pc.V)-1; a < b; a, b = a+1, b-1 {
+						pc.V[a], pc.V[b] = pc.V[b], pc.V[a]
+					}
+					pc.Dir, pc.Reversed, pc.Ver, pc.Epoch = -pc.Dir, !pc.Reversed, 1, 1
+				}
+			}
+			for i, j := 0, np-1; i < j; i, j = i+1, j-1 {
+				v2.MemberOrder[i], v2.MemberOrder[j] = v2.MemberOrder[j], v2.MemberOrder[i]
+			}
+			c16CheckHistory(res, []*polyg.Instance{v1, v2}, "enum-history/"+v1.Shape())
+			count++
+		}
+	}
+	return count
+}
+
 // enum-edge: fixed truths whose vertices lie on the ends of the coordinate range.
 func c16EnumEdge(res *c16Ctx) int {
 	deg := func(lon, lat float64) polyg.Pt {
@@ -1290,6 +1418,10 @@ func c16Exec(c fw.Case) *fw.Result {
 		if res.Sample == nil {
 			res.Sample = map[string]any{"shared_sets": n}
 		}
+	case "enum-history":
+		cnt := c16EnumHistory(res)
+		res.Sample = map[string]any{"family": "outer in two ways + hole in 1-4 ways; relation version 2 has every non-empty subset of the member ways reversed by a new way version", "inputs": cnt}
+		res.Add("enumerated_inputs", int64(cnt))
 	case "enum-edge":
 		cnt := c16EnumEdge(res)
 		res.Sample = map[string]any{"family": "rings on the ends of the coordinate range: the whole range (-180..180 x -90..90) with a hole; strips ending on lon=180 / lon=-180 from pole to pole", "inputs": cnt}
@@ -1333,6 +1465,7 @@ func init() {
 			"each truth is converted in four input variants (N node objects, W located way nodes, NO/WO the same with truth-derived member orientations) and annotated four times: members without annotations (A), pre-annotated with the true directions (A=), with the opposite ones (A-), with a mix of right / wrong / none (A~); plus seed-independent exhaustive families (single n-gon: every cut set x reversal mask x member order; outer+hole; two outers). " +
 			"Every input is also converted with only a random subset of members annotated (NP, WP; enum-partial: all subsets x orders), and sets of 2-4 relations sharing border ways (kind shared) go through one Convert call in every relation order, each relation judged against its own truth. " +
 			"Concave truths (kind concave: thick-snake outers with corridor holes, further outers in the notch) and placements on the ends of the coordinate range (origin edge, enum-edge) are part of the case list. " +
+			"Every generated input is also annotated as a history of 2-3 relation versions in one call (member ways reversed / split by new way versions between relation versions; signature suffix H<versions>). " +
 			"A signature is (family, #outers, holes per outer, cut classes present, reversal class, +node member, variant); distinct_nontrivial counts distinct signatures.",
 		Assumptions: []string{
 			"'the result is the same' is read up to ring start vertex, order of holes within a polygon and order of polygons; winding, closure and the cyclic vertex sequence are compared exactly (float64 bit patterns)",
@@ -1397,6 +1530,7 @@ func init() {
 				cs = append(cs, fw.Case{Kind: "concave", Seed: gen.Sub(seed, "c16concavecase", i), P: map[string]int64{"n": int64(concPer)}})
 			}
 			cs = append(cs, fw.Case{Kind: "enum-edge"})
+			cs = append(cs, fw.Case{Kind: "enum-history"})
 			cs = append(cs, fw.Case{Kind: "enum-grid", P: map[string]int64{"split": 0}})
 			if tier == "thorough" {
 				cs = append(cs, fw.Case{Kind: "enum-grid", P: map[string]int64{"split": 1, "perms": 0}})
